@@ -1,0 +1,110 @@
+//go:build verif
+
+package main
+
+import (
+	"fmt"
+	"mltwist/internal/deps"
+	"mltwist/internal/parser"
+	"mltwist/pkg/expr"
+	"mltwist/pkg/model"
+	"strings"
+)
+
+// Basic blocks (C08).
+//
+//	bbparse <entry> <n> (<addr> <len> <neffects> EF...)...
+//	    deps.NewCode(entry, instructions) and Code.Blocks():
+//	    "<nblocks> (<k> (<addr> <len>)...)..." or "err:<stage>:<class>"
+//	bbjumps <addr> <len> <neffects> EF...
+//	    jump targets of a single instruction (deps.jumps): "<n> E..."
+//
+// Instruction bytes are zero bytes of the given length, Details is a stub.
+
+type stubDetails struct{}
+
+func (stubDetails) Name() string   { return "stub" }
+func (stubDetails) String() string { return "stub" }
+
+// maxInsLen bounds the instruction length accepted on a line (allocation).
+const maxInsLen = 1 << 16
+
+func (t *tokens) instruction() parser.Instruction {
+	addr := t.uint()
+	l := t.uint()
+	if l > maxInsLen {
+		panic(parseError("instruction too long"))
+	}
+	n := t.int()
+	if n < 0 {
+		panic(parseError("bad effect count"))
+	}
+	var effects []expr.Effect
+	for i := 0; i < n; i++ {
+		effects = append(effects, t.effect())
+	}
+	return parser.Instruction{
+		Type:    model.TypeNone,
+		Addr:    model.Addr(addr),
+		Bytes:   make([]byte, l),
+		Effects: effects,
+		Details: stubDetails{},
+	}
+}
+
+// bbErrClass maps the error chain of NewCode to a small enum.
+func bbErrClass(err error) string {
+	s := err.Error()
+	stage := "other"
+	switch {
+	case strings.Contains(s, "cannot split blocks by jump targets"):
+		stage = "jt"
+	case strings.Contains(s, "cannot create basic block at entry point"):
+		stage = "entry"
+	}
+	class := "other"
+	switch {
+	case strings.Contains(s, "no basic block with address"):
+		class = "noblock"
+	case strings.Contains(s, "block doesn't contain address"):
+		class = "notcontained"
+	case strings.Contains(s, "instruction at address") && strings.Contains(s, "not found"):
+		class = "notfound"
+	case strings.Contains(s, "is not at instruction boundary"):
+		class = "boundary"
+	}
+	return "err:" + stage + ":" + class
+}
+
+func init() {
+	register("bbparse", func(t *tokens) string {
+		entry := t.uint()
+		n := t.int()
+		if n < 0 {
+			panic(parseError("bad instruction count"))
+		}
+		var seq []parser.Instruction
+		for i := 0; i < n; i++ {
+			seq = append(seq, t.instruction())
+		}
+		code, err := deps.NewCode(model.Addr(entry), seq)
+		if err != nil {
+			return bbErrClass(err)
+		}
+		var sb strings.Builder
+		blocks := code.Blocks()
+		fmt.Fprintf(&sb, "%d", len(blocks))
+		for _, b := range blocks {
+			inss := b.Instructions()
+			fmt.Fprintf(&sb, " %d", len(inss))
+			for _, ins := range inss {
+				fmt.Fprintf(&sb, " %d %d", ins.Begin(), ins.Len())
+			}
+		}
+		return sb.String()
+	})
+	register("bbjumps", func(t *tokens) string {
+		ins := t.instruction()
+		return fmtExprs(deps.VerifJumps(ins))
+	})
+}
